@@ -81,8 +81,8 @@ BOUNDED_ONLY = ('the path properties walk parent/children object graphs (get_chi
 NOT_DECIDED = ['for ALL trees: only the stated scope is explored (bounded stand-in)']
 
 
-def _select(root_node, path, item=None):
-    tok = XPath31Parser().parse(path)
+def _select(root_node, path, item=None, namespaces=None):
+    tok = XPath31Parser(namespaces=namespaces).parse(path)
     r = tok.evaluate(XPathContext(root=root_node, item=item))
     return r if isinstance(r, list) else [r]
 
@@ -145,6 +145,14 @@ def path_contract(tier, seed):
                             continue
                         if len(got) != 1 or got[0] is not node:
                             bad(f'{kind}: the path of {pname} does not select exactly the node', f'{p!r} selects {got!r:.160}', **w)
+                        elif 'urn:x' in repr(t):
+                            # the path spells every name out (Q{uri}local): a default element namespace of the evaluating parser does not change what it selects
+                            try:
+                                got2 = _select(rn, p, namespaces={'': 'urn:x', 'z': 'urn:y'})
+                            except Exception as e:      # noqa
+                                got2 = f'{type(e).__name__}: {str(e)[:80]}'
+                            if not isinstance(got2, list) or len(got2) != 1 or got2[0] is not node:
+                                bad(f'{kind}: the path of {pname} selects another node under a parser with a default element namespace', f'{p!r} selects {got2!r:.160}', **w)
                         if pname == 'path property':
                             if p in seen and seen[p] is not node:
                                 bad(f'{kind}: two nodes share one path', f'{p!r}: {seen[p]!r} and {node!r}', **w)
